@@ -197,7 +197,7 @@ MIRSYM("make_tree_step", ["C01", "C15", "C20", "C04"],
 
 MIRSYM("node_ids_interleavings", ["C13"],
        "from every state ConcurrentNodeIds::new can produce, under every sequentially consistent interleaving of the atomic steps of k threads x m calls of next(): every returned Ok(id) is not in use and pairwise distinct",
-       "used sets over a 16-id universe (incl. the moment recycled ids run out); (k,m) in {2x1, 2x2} quick, + {3x1, 2x3, 3x2} thorough; atomic step = one atomic access of the MIR",
+       "used sets over a 16-id universe (incl. the moment recycled ids run out); (k,m) in {2x1, 2x2} quick, + {3x1, 2x3} thorough; atomic step = one atomic access of the MIR",
        _lazy("e2_ids"), site="ConcurrentNodeIds::next")
 
 # ---------------------------------------------------------------- metric formulas (C04 C11 C20)
@@ -220,6 +220,7 @@ K("manhattan_self_zero_symmetric", ["C11"], DSF,
 K("built_distance_is_the_kernel_value", ["C11", "C02"], DSF,
   "DotProduct::built_distance = -dot_product(p, q) (so the reported score is +dot) and Euclidean::built_distance = euclidean_distance(p, q), whatever the leaf headers contain",
   "all header values, dim 2, kernels as uninterpreted functions", site="DotProduct/Euclidean::built_distance", timeout=300)
+# cosine_built_distance_definition as a Kani harness: CBMC does not finish the duplicated division circuits in 600 s (parked); decided structurally by the mirsym obligation of the same name.
 # cosine_range (Cosine::built_distance in [0,1]): one f32 product and one division of symbolic floats -- no CBMC verdict in 300 s; not registered.
 
 _SEARCH_BOUNDS = "forests: 1 tree from {bucket; split(bucket,bucket); split(item,bucket)} + (split(bucket,item) with a second single-bucket tree); thorough adds the other depth-1 shapes and one depth-2 shape, <= 3 (thorough 4) items over a 16-id universe; count 0..=6; candidate filter absent or any 16-bit set; per-item distances = uninterpreted f32 function of the id (any values incl. NaN/inf/ties); per-split margins arbitrary f32"
@@ -264,6 +265,11 @@ MIRSYM("two_means_bounded_sampling", ["C20"],
        "two_means / two_means_binary_quantized with cosine = true on data whose sampled norms are all NaN or <= 0 (all-zero vectors, NaN vectors): the sampling loop returns Ok after a bounded number of samples (every iteration, including the skipped ones, consumes the loop counter), never panics",
        "one symbolic path per function and class: every sampled norm NaN, or every vector with the same symbolic norm n0 in (-inf, 0]; distances arbitrary f32; bound = 8000 executed MIR blocks (the code needs < 3900 for its 200 samples); datasets with positive norms fork 3 ways per iteration and are outside this obligation",
        _lazy("e2_means"), site="distance::two_means")
+
+MIRSYM("cosine_built_distance_definition", ["C11"],
+       "Cosine::built_distance is the term (1 - clamp(pq / (pn*qn), -1, 1)) / 2 guarded by pn*qn > f32::EPSILON, and 0.0 otherwise, for every pair of stored norms and every dot product (a vector with a tiny norm is not a zero vector while the product is large)",
+       "norms and dot product symbolic f32 of any bit pattern; f32 *, /, -, clamp uninterpreted (term equality modulo congruence and commutativity of *), the comparison with EPSILON interpreted",
+       _lazy("e2_dot", "cosine_obligation"), site="Cosine::built_distance")
 
 MIRSYM("distance_kernels_structure", ["C11"],
        "for every length n the value computed by spaces::simple::{dot_product, euclidean_distance} on each dispatch path (AVX+FMA, SSE, scalar) equals sum_i a_i*b_i resp. sum_i (a_i-b_i)^2 modulo re-association of the sum: every index used exactly once, right pairing, right remainder, no out-of-bounds read",
